@@ -185,6 +185,7 @@ def tlc_ops_only(module, consts, workdir, tag):
 RE_REJECT = re.compile(r'^<<"REJECT", (\d+), "(.*)">>\s*$')
 
 
+HEAP_EXPLAINED = {'events': 0, 'with_panic': 0, 'shards': 0}   # events the pointer-level trace specs explained (HeapTrace / SegHeapTrace)
 POLICY_DRIFT = {'records': 0, 'samples': []}      # records where the implementation's list is not the policy specification's (IterTrace)
 
 
@@ -211,6 +212,12 @@ def tlc_validate(trace_module, tconsts, prop, shard, workdir, tag, extra_env=Non
                 ok = True
             if line.startswith('Error:'):
                 errs.append(line.strip()[:1500])
+            if line.startswith('<<"EXPLAINED"'):
+                m2 = re.match(r'<<"EXPLAINED", (\d+), "with-panic", (\d+)', line)
+                if m2:
+                    HEAP_EXPLAINED['events'] += int(m2.group(1))
+                    HEAP_EXPLAINED['with_panic'] += int(m2.group(2))
+                    HEAP_EXPLAINED['shards'] += 1
             if line.startswith('<<"POLICY-DRIFT"'):
                 POLICY_DRIFT['records'] += 1
                 if len(POLICY_DRIFT['samples']) < 3:
